@@ -30,6 +30,9 @@ type matCase struct {
 	// descending; "reconstruct": everything else, singular values compared as a multiset).  Never
 	// generated; used by the known-finding replays so that each replay tracks exactly one defect.
 	Focus string `json:"focus,omitempty"`
+	// MagLog2 (SVD and eigenvalue clauses): the matrix is given in units of 2^MagLog2, an exact rescaling; singular
+	// and eigenvalues scale with it and the factors do not change
+	MagLog2 int `json:"mag_log2,omitempty"`
 }
 
 const sMin, sMax = 0.3, 3.0
@@ -79,6 +82,9 @@ func genMatCase(t *rapid.T, sizes []int, impls []string, symOK bool) matCase {
 	}
 	for i := 0; i < c.N; i++ {
 		c.W = append(c.W, F(t, -4, 4, "w"))
+	}
+	if rapid.IntRange(0, 2).Draw(t, "rescaled") == 0 {
+		c.MagLog2 = rapid.IntRange(-20, 20).Draw(t, "mag_log2")
 	}
 	return c
 }
